@@ -523,6 +523,42 @@ func CheckC12(v *View, st Stats) []Violation {
 			if want := len(v.Claimed) + creates - terminalDeletes; int(s.Replicas) != want {
 				out = append(out, viol("C12", "replicas-census", "status.replicas=%d written but the reconcile saw %d pods, created %d and replaced %d", s.Replicas, len(v.Claimed), creates, terminalDeletes))
 			}
+			// currentReplicas / updatedReplicas: the pods that are left after this reconcile's own successful
+			// creates and deletes (created, not terminating), counted by revision label
+			counted := map[string]string{} // pod name -> revision
+			for _, p := range v.Claimed {
+				if p.Status.Phase != "" && p.DeletionTimestamp == nil {
+					counted[p.Name] = podRev(p)
+				}
+			}
+			for _, d := range v.R.Calls {
+				if d.Seq > c.Seq || !d.OK() || d.Res != simapi.Pods {
+					continue
+				}
+				switch d.Verb {
+				case "delete":
+					delete(counted, d.Name)
+				case "create":
+					if np, ok := d.Obj.(*corev1.Pod); ok {
+						counted[d.Name] = podRev(np)
+					}
+				}
+			}
+			nCur, nUpd := 0, 0
+			for _, rev := range counted {
+				if rev == s.CurrentRevision {
+					nCur++
+				}
+				if rev == s.UpdateRevision {
+					nUpd++
+				}
+			}
+			if int(s.UpdatedReplicas) != nUpd {
+				out = append(out, viol("C12", "updated-census", "status.updatedReplicas=%d written but %d pods at update revision %s are left after this reconcile's actions", s.UpdatedReplicas, nUpd, s.UpdateRevision))
+			}
+			if int(s.CurrentReplicas) != nCur {
+				out = append(out, viol("C12", "current-census", "status.currentReplicas=%d written but %d pods at current revision %s are left after this reconcile's actions", s.CurrentReplicas, nCur, s.CurrentRevision))
+			}
 		}
 		before, _ := c.Before.(*asv1.StatefulSet)
 		if before == nil || v.Set == nil {
